@@ -218,6 +218,8 @@ type c16Run struct {
 	actors           []*c16Actor // one per life (slot); the model's actor k is slot k
 	obj              []*c16Wrap  // the object value slot k is a life of (nil: not added yet); shared by the lives of one value
 	again            []int       // slot whose object value slot k gives a further life to (-1: a new object value)
+	pendRegs         []int       // registerEvent mails waiting in the held mailbox of slot k
+	lateSub          []bool      // a registerEvent was (or may have been) handled by slot k after its life ended: the subscriber stays in the object value
 	phase            []c16Phase
 	id               []uint32
 	addDone          []chan c16AddRes
@@ -275,6 +277,8 @@ func c16NewRun(res *hx.Result, rng *hx.Rng) (*c16Run, error) {
 	r.reused = make([]bool, c16Actors)
 	r.obj = make([]*c16Wrap, c16Actors)
 	r.again = make([]int, c16Actors)
+	r.pendRegs = make([]int, c16Actors)
+	r.lateSub = make([]bool, c16Actors)
 	for k := range r.again {
 		r.again[k] = -1
 	}
@@ -458,11 +462,14 @@ func (r *c16Run) idle(k int) bool {
 }
 
 // againCandidates: slots whose object value can be handed to Add once more — it has been removed
-// (or its activation failed), it is the latest life of that value, and its old mailbox is idle.
+// (or its activation failed), it is the latest life of that value, its old mailbox is idle, and no
+// registration was handled after the life ended (a registerEvent accepted before the removal and
+// handled after it leaves a subscriber in the object value, which its next life inherits: state
+// across lives that the model — one actor per life, starting fresh — does not have).
 func (r *c16Run) againCandidates() []int {
 	var out []int
 	for p := range r.actors {
-		if (r.phase[p] == c16phRemoved || r.phase[p] == c16phFailed) && r.latest(p) && r.idle(p) {
+		if (r.phase[p] == c16phRemoved || r.phase[p] == c16phFailed) && r.latest(p) && r.idle(p) && !r.lateSub[p] {
 			out = append(out, p)
 		}
 	}
@@ -658,6 +665,9 @@ func (r *c16Run) opRemove(id uint32) {
 			if id == 1 {
 				r.obj1Gone = true
 			}
+			if r.pendRegs[target] > 0 {
+				r.lateSub[target] = true
+			}
 		}
 	}
 	if adding && err == nil && !panicked {
@@ -782,6 +792,9 @@ func (r *c16Run) opSend(f c16Frame) {
 		}
 	}
 	if held {
+		if enqueued && f.act == 3 {
+			r.pendRegs[owner]++
+		}
 		if !f.post {
 			r.queuedOf[owner] = append(r.queuedOf[owner], [2]uint32{uint32(f.conn), f.id})
 		}
@@ -867,7 +880,12 @@ func (r *c16Run) opDrain(k int) {
 	desc := fmt.Sprintf("Drain(actor %d)", k)
 	obs, perConn := r.observe(false, nil, nil, false)
 	r.record(fmt.Sprintf("PDrain %d", k), obs, desc)
+	wasLive := r.phase[k] == c16phLive
 	r.reconcile(perConn, "after "+desc)
+	if wasLive && r.phase[k] != c16phLive && r.pendRegs[k] > 0 {
+		r.lateSub[k] = true // its own terminate was among the drained mails, and so were registrations
+	}
+	r.pendRegs[k] = 0
 }
 
 func (r *c16Run) opEmit(k int, sig uint32) {
